@@ -135,6 +135,7 @@ def finite_difference(blk: Module, fromsig: Union[Signal, Iterable[Signal]] = No
 
         # Reset the sensitivities for next output
         blk.reset()
+        Sout.reset()  # Also in case the output signal is not part of the executed modules
 
     # Perturb each of the input signals
     for Iin, Sin in enumerate(inps):
